@@ -6,6 +6,8 @@ package c11
 //	"P.P1" | "S.P1.1.P1" | "C.1"   start that call in its own goroutine
 //	"O.P1"                         open the gate of proposal P1: its processor, parked in the stub
 //	                               writer's Manifest with ProposalProcessors.l held, goes on
+//	"OW.P1"                        open the writer gate of P1: BlockWriter.Save of its block (logged when
+//	                               it was called), parked with ProposalProcessors.l held, returns
 //
 // After every command the controller waits until the process is quiet: every goroutine that has a
 // frame of mitum or of this package on its stack is blocked (on the mutex, at a gate, on a channel).
@@ -158,15 +160,18 @@ func forceOne(s schedule, seed int64, timeout time.Duration) (ev, error) {
 	for i, c := range s.Cmds {
 		r.emit(ev{"a": "Cmd", "c": c, "i": i})
 
-		if strings.HasPrefix(c, "O.") {
-			f := c[2:]
-
-			g, found := r.gates[f]
-			if !found || open[f] {
-				return nil, fmt.Errorf("schedule %d: cannot open gate %q", s.ID, f)
+		if strings.HasPrefix(c, "O.") || strings.HasPrefix(c, "OW.") {
+			gates := r.gates
+			if strings.HasPrefix(c, "OW.") {
+				gates = r.wgates
 			}
 
-			open[f] = true
+			g, found := gates[c[strings.Index(c, ".")+1:]]
+			if !found || open[c] {
+				return nil, fmt.Errorf("schedule %d: cannot open gate %q", s.ID, c)
+			}
+
+			open[c] = true
 
 			close(g)
 		} else {
@@ -201,7 +206,13 @@ func forceOne(s schedule, seed int64, timeout time.Duration) (ev, error) {
 
 	// let everything that is left run out
 	for f, g := range r.gates {
-		if !open[f] {
+		if !open["O."+f] {
+			close(g)
+		}
+	}
+
+	for f, g := range r.wgates {
+		if !open["OW."+f] {
 			close(g)
 		}
 	}
@@ -232,6 +243,9 @@ func force(fl map[string]string) error {
 	if err := setup(); err != nil {
 		return err
 	}
+
+	// one goroutine moves at a time in a forced schedule; with few Ps stopping the world (runtime.Stack) is cheap
+	runtime.GOMAXPROCS(2)
 
 	timeout := 5 * time.Second
 	if ms, err := strconv.Atoi(fl["timeout"]); err == nil && ms > 0 {
